@@ -86,7 +86,22 @@ func yieldProtocol(c *core.Ctx, rule string, fns []*ssa.Function) int {
 				}
 			}
 		}
-		if len(ycalls) == 0 {
+		// delegations: the consumer itself is handed to another call (e.g. inner(yield));
+		// whether it declined during that call is unknown afterwards.
+		var delegs []ycall
+		for _, g := range facts.WithAnon(fn) {
+			for _, ci := range facts.CallsIn(g) {
+				if p, ok := isYieldCall(ci); ok && p == yp {
+					continue
+				}
+				for _, a := range ci.Common().Args {
+					if facts.ResolveFree(a) == ssa.Value(yp) {
+						delegs = append(delegs, ycall{ci, g})
+					}
+				}
+			}
+		}
+		if len(ycalls) == 0 && len(delegs) == 0 {
 			continue
 		}
 		n++
@@ -103,6 +118,25 @@ func yieldProtocol(c *core.Ctx, rule string, fns []*ssa.Function) int {
 			}
 		}
 		bad := 0
+		isYorDeleg := func(g *ssa.Function) func(ssa.Instruction) bool {
+			return func(in ssa.Instruction) bool {
+				if isY(g)(in) {
+					return true
+				}
+				for _, d := range delegs {
+					if ssa.Instruction(d.call) == in {
+						return true
+					}
+				}
+				return false
+			}
+		}
+		for _, d := range delegs {
+			if at, reach := facts.ReachesWithout(d.call, isYorDeleg(d.in), nil, nil); reach {
+				bad++
+				c.Fail(rule, key+"/yield-after-delegation", d.call.Pos(), "the consumer is handed to an inner iterator and then called (or handed on) again at "+c.P.Pos(at.Pos())+": if it declined further items during the inner iteration it is called again after declining")
+			}
+		}
 		for _, yc := range ycalls {
 			call, isCall := yc.call.(*ssa.Call)
 			if !isCall {
